@@ -48,7 +48,28 @@ AGP = "g.fa.agp"
 
 _IO_BUFS = [1, 2, 3, 7, 16, 61, 64, 100, 4096, 8192]
 _IDX_BUFS = [1, 2, 3, 5, 7, 13, 64, 250, 250_000]
-_FAULT_KINDS = ["crash", "crash", "crash", "torn_write", "torn_write", "enospc", "eio_write", "short_write", "eio_read", "eacces_open"]
+_FAULT_KINDS = ["crash", "crash", "crash", "torn_write", "torn_write", "enospc", "eio_write", "short_write", "eio_read", "eacces_open",
+                "eio_open+crash", "eio_open+torn_write", "eio_open+crash"]  # compound: the first write-open fails, the run goes on and is then interrupted
+
+
+def make_fault(kind, at, frac=0.0, first_at=0):
+    """Fault object for a (possibly compound) kind; for 'a+b' the first write-open
+    at or after event `first_at` gets fault a and the process then gets fault b at
+    event `at`."""
+    if "+" in kind:
+        first, second = kind.split("+", 1)
+        return Fault(first, first_at, 0.0, then=Fault(second, at, frac))
+    return Fault(kind, at, frac)
+
+
+def last_fired(fo):
+    """The fault of a (compound) plan that fired last, or None."""
+    hit = None
+    while fo is not None:
+        if fo.fired:
+            hit = fo
+        fo = fo.then
+    return hit
 
 
 # ---------------------------------------------------------------------------
@@ -351,6 +372,8 @@ class Exec:
                 continue
             if st["op"] == "LOAD_FAULT" and "at" in b:
                 st["fault"]["at"] = b["at"]
+                if b.get("first_at"):
+                    st["fault"]["first_at"] = b["first_at"]
             if st["op"] == "RACE":
                 if "choices" in b:
                     st["sched"] = {"kind": "replay", "choices": b["choices"]}
@@ -536,8 +559,10 @@ class Exec:
         self.state_class(how)
         pre = self._pre_state()
         proc = w.run_solo(self.body(entry), name=how, fault=fault, pid=pid)
-        faulted = fault is not None and fault.fired
+        hit = last_fired(fault)
+        faulted = hit is not None
         if faulted:
+            fault = hit
             self.branch["site"] = f"{fault.kind}@{fault.where[0].split(':')[0]}:{fault.where[1].replace(str(proc.pid), 'PID')}"
             if fault.where[1] == AGP and any(
                 t[0] == proc.pid and t[3] == FAI and t[2] in ("write", "replace") for t in w.trace[proc.trace_start:]
@@ -702,10 +727,10 @@ class Exec:
                         self.enumerating = False
                     return
                 self._seed_ticks(j, f["at"])
-                self.branch[j] = {"at": f["at"]}
-                fo = Fault(f["kind"], f["at"], f.get("frac", 0.0))
+                self.branch[j] = {"at": f["at"], "first_at": f.get("first_at", 0)}
+                fo = make_fault(f["kind"], f["at"], f.get("frac", 0.0), f.get("first_at", 0))
                 self.do_load(j, st["entry"], fo, "load+" + f["kind"], pid)
-                if fo.fired:
+                if last_fired(fo) is not None:
                     self.probe_load(j, "after-" + f["kind"])
             elif op == "RACE" and st["sched"]["kind"] == "sandwich" and (
                 st["sched"].get("i") is None or st["sched"].get("j") is None
@@ -757,30 +782,45 @@ class Exec:
         f = st["fault"]
         saved = self._save()
         # learn the event count of the fault-free execution of this step
-        self._seed_ticks(j, "learn")
-        proc = w.run_solo(self.body(st["entry"]), name="learn", pid=100 + j * 10)
-        n = proc.nevents
-        self.evals += 1
-        evs = [t for t in w.trace[proc.trace_start:] if t[0] == proc.pid]
-        ks = representative_points(f["kind"], evs, n, random.Random(self.knobs["tick_seed"] ^ j))
-        cap = 96 if self.tier == "quick" else 400
-        if len(ks) > cap:
-            ks = sorted(random.Random(self.knobs["tick_seed"] ^ (j + 99)).sample(ks, cap))
-            w.probe("fault_enumeration_sampled")
+        compound = "+" in f["kind"]
+        first_ats = [0]
+        if compound:
+            # the failing open may be that of the first or of the second cache file:
+            # learn where the write-opens of a fault-free run are
+            self._seed_ticks(j, "learn0")
+            p0 = w.run_solo(self.body(st["entry"]), name="learn0", pid=100 + j * 10)
+            self.evals += 1
+            wo = [t[1] for t in w.trace[p0.trace_start:] if t[0] == p0.pid and t[2].startswith("open:") and is_mutating_op(t[2])]
+            first_ats = [0] + ([wo[0] + 1] if len(wo) > 1 else [])
         w.probe("enumerated_steps")
-        w.probe("events_in_enumerated_steps", n)
-        w.probe("enumerated_fault_points", len(ks))
-        for k in ks:
+        for first_at in first_ats:
             self._load(saved)
-            self._seed_ticks(j, k)
-            self.branch[j] = {"at": k}
-            fo = Fault(f["kind"], k, f.get("frac", 0.0))
-            self.do_load(j, st["entry"], fo, "load+" + f["kind"], 100 + j * 10)
-            if fo.fired:
-                self.probe_load(j, "after-" + f["kind"])
-            self.run_from(j + 1)
-            if len(self.violations) >= 6:
-                break
+            self._seed_ticks(j, "learn")
+            # (for a compound kind the points of the second fault are those of the run
+            # in which the first one has already fired)
+            learn_fault = Fault(f["kind"].split("+")[0], first_at) if compound else None
+            proc = w.run_solo(self.body(st["entry"]), name="learn", pid=100 + j * 10, fault=learn_fault)
+            n = proc.nevents
+            self.evals += 1
+            evs = [t for t in w.trace[proc.trace_start:] if t[0] == proc.pid]
+            ks = representative_points(f["kind"].split("+")[-1], evs, n, random.Random(self.knobs["tick_seed"] ^ j))
+            cap = 96 if self.tier == "quick" else 400
+            if len(ks) > cap:
+                ks = sorted(random.Random(self.knobs["tick_seed"] ^ (j + 99)).sample(ks, cap))
+                w.probe("fault_enumeration_sampled")
+            w.probe("events_in_enumerated_steps", n)
+            w.probe("enumerated_fault_points", len(ks))
+            for k in ks:
+                self._load(saved)
+                self._seed_ticks(j, k)
+                self.branch[j] = {"at": k, "first_at": first_at}
+                fo = make_fault(f["kind"], k, f.get("frac", 0.0), first_at)
+                self.do_load(j, st["entry"], fo, "load+" + f["kind"], 100 + j * 10)
+                if last_fired(fo) is not None:
+                    self.probe_load(j, "after-" + f["kind"])
+                self.run_from(j + 1)
+                if len(self.violations) >= 6:
+                    break
         # and the branch where the step is not interrupted at all
         self._load(saved)
         self._seed_ticks(j, "-")
@@ -953,7 +993,7 @@ def shrink_candidates(obj):
             c = copy.deepcopy(obj)
             c["history"][j]["dt"] = 0
             yield c
-        if st["op"] == "LOAD_FAULT" and st["fault"]["kind"] != "crash":
+        if st["op"] == "LOAD_FAULT" and st["fault"]["kind"] != "crash" and "+" not in st["fault"]["kind"]:
             c = copy.deepcopy(obj)
             c["history"][j]["fault"]["kind"] = "crash"
             yield c
